@@ -36,12 +36,14 @@ A_MUX = [192, 219, 220, 221, 65, 69, 169, 96]
 def configs(thorough):
     if thorough:
         return [
-            ("plain/zero-reads", A_PLAIN, 3, 2, [999], True, 2),
-            ("plain/blocking", A_PLAIN, 3, 2, [999], False, 1),
+            # sized so that no single set exceeds TLC's limit of 10^6 elements and every configuration finishes in minutes
+            ("plain/zero-reads", A_PLAIN, 2, 2, [999], True, 2),
+            ("plain/long-zero-reads", A_PLAIN, 3, 1, [999], True, 2),
+            ("plain/blocking", A_PLAIN, 3, 1, [999], False, 1),
             ("plain/3-packets", A_PLAIN[:5], 2, 3, [999], True, 1),
             ("mux/zero-reads", A_MUX, 4, 1, [10, 169, 998, 192, 0], True, 2),
             ("mux/2-packets", A_MUX[:5] + [69], 2, 2, [10, 998, 219], True, 1),
-            ("mux/coap-2-packets", [192, 219, 65, 169], 4, 2, [169], True, 1),
+            ("mux/coap-2-packets", [192, 219, 65], 4, 2, [169], True, 1),
         ]
     return [
         ("plain/zero-reads", A_PLAIN[:7], 2, 2, [999], True, 2),
